@@ -1097,3 +1097,200 @@ def gen_buf_scenario(rng):
                        strbuf_limit=rng.choice([16, 64, 64, 256, 8192]), overflow=rng.choice([80, 200, 200, 500]),
                        high_watermark=rng.choice([100, 300, 1000, 16777216, 16777216]),
                        granularity=rng.choice(["locks", "locks", "locks", "attrs"]))
+
+
+# ----------------------------------------------------------------------------
+# Request streams whose parsing depends on HOW THE BYTES ARRIVE (added for the third wave of seeded changes:
+# C04-w3m2 makes ChunkedReceiver.received mis-count the bytes consumed when the final CR LF of a chunked body is
+# split between two reads; the next pipelined request loses its first byte and `ET /second` is executed).
+#
+# A SegScenario is a pipeline that mixes body-less, Content-Length and chunked requests (chunk extensions,
+# trailer fields) delivered under an explicit segmentation (`cuts`: the offsets at which the client's stream is
+# cut into separate send()s; the scripted socket hands the server one piece per recv()).  The application echoes
+# what it was called with (method, path, body) and the world records the calls, so a request that reaches the
+# application differently from how the client sent it changes both the call record and the wire.  The oracle is
+# the lone run: each request alone on a fresh connection, delivered whole.
+#
+# Model/ChanPipe.v abstracts parsing (a request is an id; `received` consumes whole items), so these runs are
+# judged by the MONITOR ONLY (monitor() + the call record); they are not replayed on the extracted model.
+
+
+class SReq:
+    """framing: "none" | "cl" | "chunked"; sizes: the chunk sizes the body is cut into (chunked);
+    ext: chunk extension text appended to every chunk-size line; trailer: trailer field lines after the last chunk."""
+    expect = False
+
+    def __init__(self, path, method="GET", framing="none", body=b"", sizes=(), ext="", trailer=(), close=False):
+        self.path, self.method, self.framing, self.body = path, method, framing, bytes(body)
+        self.sizes, self.ext, self.trailer, self.close = list(sizes), ext, list(trailer), close
+
+    def head(self):
+        h = "%s %s HTTP/1.1\r\nHost: x\r\n" % (self.method, self.path)
+        if self.framing == "cl":
+            h += "Content-Length: %d\r\n" % len(self.body)
+        elif self.framing == "chunked":
+            h += "Transfer-Encoding: chunked\r\n"
+        if self.close:
+            h += "Connection: close\r\n"
+        return (h + "\r\n").encode()
+
+    def payload(self):
+        if self.framing == "cl":
+            return self.body
+        if self.framing != "chunked":
+            return b""
+        out = b""
+        pos = 0
+        sizes = list(self.sizes) or ([len(self.body)] if self.body else [])
+        for n in sizes:
+            part = self.body[pos:pos + n]
+            pos += len(part)
+            if part:
+                out += ("%x%s\r\n" % (len(part), self.ext)).encode() + part + b"\r\n"
+        if pos < len(self.body):
+            part = self.body[pos:]
+            out += ("%x%s\r\n" % (len(part), self.ext)).encode() + part + b"\r\n"
+        out += b"0\r\n" + b"".join(t.encode() + b"\r\n" for t in self.trailer) + b"\r\n"
+        return out
+
+    def bytes(self):
+        return self.head() + self.payload()
+
+    def expected_call(self):
+        return [self.method, self.path, (self.body if self.framing != "none" else b"").hex()]
+
+    def key(self):
+        return ("seg", self.path, self.method, self.framing, self.body, tuple(self.sizes), self.ext, tuple(self.trailer), self.close)
+
+    def to_json(self):
+        return {"path": self.path, "method": self.method, "framing": self.framing, "body": self.body.hex(), "sizes": self.sizes,
+                "ext": self.ext, "trailer": self.trailer, "close": self.close}
+
+    @staticmethod
+    def from_json(d):
+        return SReq(d["path"], d["method"], d["framing"], bytes.fromhex(d["body"]), d["sizes"], d["ext"], d["trailer"], d["close"])
+
+
+class SegScenario(Scenario):
+    def __init__(self, reqs, cuts=(), lookahead=0, n_workers=1, send_plan=(), eof=False, max_steps=12000, seg_kind="?"):
+        Scenario.__init__(self, reqs, cuts, send_plan, lookahead, n_workers, 1, 1 << 16, eof, max_steps)
+        self.seg_kind = seg_kind
+
+    def app(self):  # replaced per world by SegWorld (it records the calls)
+        return None
+
+    def to_json(self):
+        d = Scenario.to_json(self)
+        d["seg"] = {"kind": self.seg_kind, "pieces": len([c for c in self.cuts if 0 < c < len(self.stream())]) + 1}
+        return d
+
+    @staticmethod
+    def from_json(d):
+        return SegScenario([SReq.from_json(r) for r in d["reqs"]], d["cuts"], d["lookahead"], d["n_workers"], d["send_plan"],
+                           d["eof"], d.get("max_steps", 12000), d.get("seg", {}).get("kind", "?"))
+
+    def final_crlf_cuts(self):
+        """Cut positions that fall between the CR and the LF that end a chunked request which is followed by
+        another request (the class C04-w3m2 needs)."""
+        out = []
+        pos = 0
+        for i, r in enumerate(self.reqs):
+            pos += len(r.bytes())
+            if r.framing == "chunked" and i + 1 < len(self.reqs) and (pos - 1) in self.cuts:
+                out.append(pos - 1)
+        return out
+
+
+class SegWorld(PipeWorld):
+    def __init__(self, scn, schedule=(), policy=None, granularity="locks"):
+        PipeWorld.__init__(self, scn, schedule=schedule, policy=FairPolicy(policy), granularity=granularity, snapshots=True)
+        self.calls = []
+        world = self
+
+        def app(environ, start_response):
+            body = environ["wsgi.input"].read()
+            rec = [environ["REQUEST_METHOD"], environ["PATH_INFO"], body.hex()]
+            world.calls.append(rec)
+            out = ("%s %s %d:" % (rec[0], rec[1], len(body))).encode() + body
+            start_response("200 OK", [("Content-Length", str(len(out)))])
+            return [out[:7], out[7:]] if len(out) > 7 else [out]
+        self.app_fn = app
+
+
+def seg_response_alone(req):
+    k = req.key()
+    if k not in _ALONE:
+        w = SegWorld(SegScenario([req]))
+        w.run()
+        if w.calls != [req.expected_call()] or not w.wire.startswith(b"HTTP/1.1 200 OK\r\n"):
+            raise RuntimeError("oracle: the lone request %r was not executed as sent: calls %r wire %r" % (req.to_json(), w.calls, w.wire[:80]))
+        _ALONE[k] = w.wire
+    return _ALONE[k]
+
+
+def seg_monitor(world):
+    """monitor() with the lone-run oracle of the SReq requests, plus: the application was called with exactly
+    the (method, path, body) of a prefix of the pipeline, in order."""
+    scn = world.scn
+    for r in scn.reqs:
+        seg_response_alone(r)          # fills the oracle cache check_wire() reads
+    bad = monitor(world)
+    exp = [r.expected_call() for r in scn.reqs]
+    if world.calls != exp[:len(world.calls)]:
+        k = next((i for i, c in enumerate(world.calls) if i >= len(exp) or c != exp[i]), len(exp))
+        got = world.calls[k] if k < len(world.calls) else None
+        bad.append(("foreign-request", "C04_once / never mixed: application call %d is %r; the client sent %r (all calls: %r)" % (
+            k, got and [got[0], got[1], bytes.fromhex(got[2])], exp[k][:2] + [bytes.fromhex(exp[k][2])] if k < len(exp) else None,
+            [c[:2] for c in world.calls])))
+    if world.verdict == "overrun":
+        bad.append(("stalled", "the run did not become quiescent within %d steps under a fair schedule" % scn.max_steps))
+    return bad
+
+
+def cuts_of(pieces_):
+    out = []
+    pos = 0
+    for p in pieces_[:-1]:
+        pos += len(p)
+        out.append(pos)
+    return out
+
+
+def seg_pipelines():
+    """Directed pipelines mixing the three framings."""
+    ch = lambda p, body, **kw: SReq(p, kw.pop("method", "POST"), "chunked", body, **kw)
+    out = []
+    out.append(("chunked-then-get", [ch("/first", b"hello"), SReq("/second")]))
+    out.append(("chunked-ext-trailer-get", [ch("/a", b"abcdefghij", sizes=[3, 7], ext=";x=1"), ch("/b", b"wxyz", trailer=["X-T: v"], method="PUT"),
+                                            SReq("/c", "DELETE")]))
+    out.append(("cl-chunked-bodyless", [SReq("/p", "POST", "cl", b"12345"), ch("/q", b"0123456789abcdef", sizes=[1, 15], method="PUT"), SReq("/r", "OPTIONS")]))
+    out.append(("get-chunked-cl-get", [SReq("/g"), ch("/h", b"HH", sizes=[1, 1]), SReq("/i", "POST", "cl", b"body-i"), SReq("/j")]))
+    out.append(("chunked-empty-body-then-chunked", [ch("/e", b""), ch("/f", b"ff", ext=';n="q"'), SReq("/k", "POST", "cl", b"")]))
+    out.append(("two-chunked-close", [ch("/m", b"mmmm"), ch("/n", b"nn", close=True)]))
+    return out
+
+
+def gen_seg_pipeline(rng, max_reqs=4):
+    n = rng.randint(2, max_reqs)
+    reqs = []
+    for i in range(n):
+        path = "/" + "abcdefgh"[i] + ("" if rng.random() < 0.7 else "/x%d" % rng.randint(0, 9))
+        k = rng.random()
+        if k < 0.45:
+            body = bytes(rng.choice(b"abcxyz0159") for _ in range(rng.choice([0, 1, 2, 5, 9, 17, 30])))
+            sizes = []
+            left = len(body)
+            while left > 0:
+                s = rng.randint(1, max(1, left))
+                sizes.append(s)
+                left -= s
+            reqs.append(SReq(path, rng.choice(["POST", "PUT", "PATCH"]), "chunked", body, sizes=sizes,
+                             ext=rng.choice(["", "", ";a", ";a=b", ';q="v w"']),
+                             trailer=rng.choice([[], [], [], ["X-Trailer: t"], ["A: 1", "B: 2"]])))
+        elif k < 0.7:
+            reqs.append(SReq(path, rng.choice(["POST", "PUT"]), "cl", bytes(rng.choice(b"abcxyz0159\r\n") for _ in range(rng.choice([0, 1, 4, 11, 26])))))
+        else:
+            reqs.append(SReq(path, rng.choice(["GET", "GET", "DELETE", "OPTIONS"])))
+    if rng.random() < 0.1:
+        reqs[-1].close = True
+    return reqs
